@@ -52,8 +52,9 @@ _BYTES.update(_h(['vk_int_bytes_to_large3_le', 'vk_int_bytes_to_large3_be', 'vk_
                  'bounded', _B3 + ': the 3-word half'))
 # to_signed_be_bytes (Vec::insert(0, ..) on a symbolic length is out of reach): literal top word, symbolic low words;
 # meaning of the bytes + be == reversed le
-_BYTES.update(_h(['vk_int_bytes_sbe_ctop_pos', 'vk_int_bytes_sbe_ctop_neg_b'], 'bounded',
-                 '3-word magnitudes: two fully symbolic low words, top word from the literal palette in the harness'))
+_BYTES.update(_h(['vk_int_bytes_sbe_ctop_pos'], 'bounded',
+                 'positive 3-word magnitudes: two fully symbolic low words, top word from the literal palette in the harness'))
+_BYTES.update(_h(['vk_int_bytes_sbe_concrete_neg'], 'bounded', '7 literal negative 3-word values (borrow / sign-byte shapes)'))
 # (B) bytes -> value on arbitrary byte strings
 _BYTES.update(_h(['vk_int_bytes_from_le_0_16', 'vk_int_bytes_from_be_0_16', 'vk_int_bytes_from_sle_0_16',
                   'vk_int_bytes_from_sbe_0_16'], 'complete',
@@ -67,7 +68,7 @@ _BYTES.update(_h(['vk_int_bytes_roundtrip_concrete_large', 'vk_int_bytes_roundtr
 # signed parsers, the be palette for negative numbers; the remaining instances repeat the same code with the other
 # endianness / sign
 for _n in ['vk_int_bytes_to_small_sle_pos', 'vk_int_bytes_to_large3_be', 'vk_int_bytes_to_large3_sle_pos',
-           'vk_int_bytes_sbe_ctop_pos', 'vk_int_bytes_sbe_ctop_neg_b',
+           'vk_int_bytes_sbe_ctop_pos',
            'vk_int_bytes_from_le_0_16', 'vk_int_bytes_from_le_17_25', 'vk_int_bytes_from_be_17_25',
            'vk_int_bytes_from_sbe_17_25', 'vk_int_bytes_roundtrip_concrete_large']:
     _BYTES[_n]['tier'] = 'thorough'
@@ -77,8 +78,7 @@ _C3 = '3-word inputs: two fully symbolic low words, literal top word and chunk s
       'the callers allocate'
 _CHUNKS = {}
 _CHUNKS.update(_h(_scan_names('int_chunks.rs', 'vk_int_chunks_kernel_'), 'bounded', _C3))
-_CHUNKS.update(_h(['vk_int_chunks_small_cb63', 'vk_int_chunks_small_cb64', 'vk_int_chunks_small_cb65',
-                   'vk_int_chunks_small_cb127', 'vk_int_chunks_small_cb128', 'vk_int_chunks_small_cb129'], 'complete',
+_CHUNKS.update(_h(['vk_int_chunks_small_cb64', 'vk_int_chunks_small_cb127', 'vk_int_chunks_small_cb129'], 'complete',
                   'every DoubleWord (the whole RefSmall domain) for the literal chunk size'))
 _CHUNKS.update(_h(['vk_int_chunks_from_cb1', 'vk_int_chunks_from_cb64', 'vk_int_chunks_from_cb65',
                    'vk_int_chunks_from_cb100'], 'bounded',
@@ -86,8 +86,7 @@ _CHUNKS.update(_h(['vk_int_chunks_from_cb1', 'vk_int_chunks_from_cb64', 'vk_int_
 _CHUNKS.update(_h(['vk_int_chunks_glue_none'], 'bounded', 'Repr::from_chunks of the empty list'))
 
 # RefSmall::to_chunks builds a Vec of symbolic length: ~4 min and > 10 GB per chunk size: thorough tier only
-for _n in ['vk_int_chunks_small_cb63', 'vk_int_chunks_small_cb64', 'vk_int_chunks_small_cb65', 'vk_int_chunks_small_cb127',
-           'vk_int_chunks_small_cb128', 'vk_int_chunks_small_cb129', 'vk_int_chunks_kernel_cb7',
+for _n in ['vk_int_chunks_small_cb64', 'vk_int_chunks_small_cb127', 'vk_int_chunks_small_cb129', 'vk_int_chunks_kernel_cb7',
            'vk_int_chunks_kernel_cb128_b', 'vk_int_chunks_kernel_cb65_a', 'vk_int_chunks_kernel_cb65_c',
            'vk_int_chunks_kernel_cb63_a', 'vk_int_chunks_kernel_cb63_b', 'vk_int_chunks_kernel_cb33_a',
            'vk_int_chunks_from_cb64', 'vk_int_chunks_from_cb100']:
@@ -145,14 +144,15 @@ PROP_UNITS = {
                 'argument" in int_fmt_dispatch; of PreparedLarge only width() is proved (against the stored chunk levels)',
                 'InRadixWriter::format_prepared / DoubleEnd::format_prepared (sign, prefix, width / fill / alignment / zero '
                 'padding around the digits) are not decided: the code is a sequence of core::fmt::Formatter calls around a '
-                'closure that captures a `&mut dyn PreparedForFormatting` (no trait objects / FnMut captures in Verus; '
-                'core::fmt machinery with a symbolic digit count does not terminate in CBMC); only its input -- width() == '
-                'number of digits written -- is proved',
+                'closure that captures a `&mut dyn PreparedForFormatting` (no trait objects / FnMut captures in Verus; a Kani '
+                'harness through core::fmt::Formatter was not attempted: already the DigitWriter with a symbolic digit count '
+                'gives no result in 400 s); only its input -- width() == number of digits written -- is proved',
                 'DigitWriter (buffering, raw digit -> ASCII) is ASSUMED in the Verus units (lib/codecs_writer_stub.rs) and '
                 'exercised for real by the Kani group int_fmt_p2; num_modular PreMulInv1by1::div_rem and '
                 'Normalized2by1Divisor are assumed contracts (dependency)',
-                'byte codecs: bounded to 3 words / 25 bytes; to_signed_be_bytes only with a literal top word (3 words) or '
-                'literal values (1..=2 words): Vec::insert(0, ..) on a symbolic length exhausts CBMC; the composition '
+                'byte codecs: bounded to 3 words / 25 bytes; to_signed_be_bytes only for positive 3-word numbers with a literal '
+                'top word and for literal values (negative 3-word, all 1..=2 word numbers): Vec::insert(0, ..) on a '
+                'symbolic length exhausts CBMC; the composition '
                 'from(to(x)) is implied by (A) + (B) of kani/harness/int_bytes.rs and executed on literals only',
                 'bit chunks: the kernels words_to_chunks / chunks_to_words on 3-word inputs with a literal top word and '
                 'chunk size, RefSmall::to_chunks for chunk sizes >= 63; the Vec<Buffer> allocation glue of '
